@@ -7,6 +7,7 @@
 package c14
 
 import (
+	"errors"
 	"fmt"
 	"io"
 	"log"
@@ -190,6 +191,10 @@ func startWatchdog(h *hx.T) {
 	}()
 }
 
+var errScripted = errors.New("scripted error value thrown by a timer callback")
+
+type panicVal struct{ code int }
+
 func showArgs(args []interface{}) string {
 	parts := make([]string, len(args))
 	for i, a := range args {
@@ -234,8 +239,19 @@ func (w *world) create(rep bool, dur, k int, args []int) timer.IdType {
 			case "a", "t":
 				id := w.create(a.kind == "t", a.dur, a.script, []int{a.arg})
 				w.addLog(fmt.Sprintf("new:%d:%s:%d:%d", uint64(id), a.kind, a.dur, a.arg))
-			case "p":
+			case "p", "pe", "pr", "pv":
+				// what a callback can panic WITH: a string literal, an error value, a Go runtime
+				// error (write to a nil map), a value of a type of the callback's own
 				w.addLog(fmt.Sprintf("panic:%d", uint64(self)))
+				switch a.kind {
+				case "pe":
+					panic(errScripted)
+				case "pr":
+					var nilMap map[int]int
+					nilMap[a.id] = 1
+				case "pv":
+					panic(panicVal{code: 7})
+				}
 				panic("scripted panic in timer callback")
 			}
 		}
@@ -270,7 +286,7 @@ func parseActs(s string) []act {
 			return 0
 		}
 		switch {
-		case tok == "cs" || tok == "cn" || tok == "p":
+		case tok == "cs" || tok == "cn" || tok == "p" || tok == "pe" || tok == "pr" || tok == "pv":
 			r = append(r, act{kind: tok})
 		case p[0] == "c" && len(p) == 2:
 			if _, err := strconv.ParseUint(p[1], 10, 63); err == nil {
@@ -636,7 +652,14 @@ func (g *gen) leafAct() string {
 	case 4:
 		return "cn"
 	}
-	return "p"
+	return g.panicAct()
+}
+
+// panicAct: a callback that panics, with one of the kinds of value Go code panics with
+func (g *gen) panicAct() string {
+	a := []string{"p", "pe", "pr", "pv"}[g.h.R.Intn(4)]
+	g.h.Count("panic-value." + map[string]string{"p": "string", "pe": "error", "pr": "runtime-error", "pv": "struct"}[a])
+	return a
 }
 
 // scripts 1,2: leaf scripts; 3..5 may create timers running lower scripts
@@ -764,7 +787,7 @@ func (g *gen) caseScenario() {
 		g.run(fmt.Sprintf("adv d=%d", d))
 		g.drain(3)
 	case 3: // panicking callback: others and later firings unaffected
-		g.run("script n=1 a=p,cs")
+		g.run("script n=1 a=" + g.panicAct() + ",cs")
 		g.mk("add", d, 1)
 		g.mk(kind, d, 0)
 		for i := 0; i < 3; i++ {
@@ -927,6 +950,28 @@ func (g *gen) caseOverflow() {
 	g.drain(n + 2)
 }
 
+// senders blocked on the full channel have passed the Canceled / running tests of the expiry
+// closure already: a Cancel or a Stop that comes now does not keep their objects out of the
+// queue (theorem expire_gap_harmless: same state as "expiry first, then Cancel / Stop") — a
+// cancelled one is skipped by Do, the others still get their callback after Stop
+func (g *gen) caseOverflowStop() {
+	g.created = 0
+	g.run("reset rs=0")
+	g.h.Count("scenario.overflow-stop-with-blocked-senders")
+	n := qcap + 4
+	for i := 0; i < n; i++ {
+		g.mk([]string{"after", "add"}[i%2], 1, 0)
+	}
+	g.run("adv d=1")
+	g.run(fmt.Sprintf("cancel id=%d", n)) // ids 2..n+1: one of the last ones
+	g.run("stop")
+	g.run(fmt.Sprintf("cancel id=%d", n-1))
+	g.run("adv d=1")
+	g.drain(n + 2)
+	g.run("adv d=2")
+	g.drain(2)
+}
+
 func (g *gen) caseMalformed() {
 	g.created = 0
 	g.h.Count("scenario.malformed")
@@ -996,6 +1041,7 @@ func TestRun(t *testing.T) {
 			}
 			g.caseMalformed()
 			g.caseOverflow()
+			g.caseOverflowStop()
 			g.caseRsBacklog(70, false)
 			g.caseRsBacklog(45, true)
 			n := hx.EnvInt("VERIF_N", 500)
